@@ -13,6 +13,8 @@ BATTERIES = {
     'C12': [['customs']],
     'C14': [['config']],
     'C08': [['emit-twice'], ['customs']],
+    'C06': [['gc']],
+    'C07': [['gc']],
     'C04': [['entities']],
     'C19': [['entities']],
     'C16': [['visit'], ['visit-cf', '4', '3'], ['visit-deep', '100000']],
